@@ -65,13 +65,13 @@ def shards(tier, seed):
     if tier == "quick":
         out = [{"kind": "perm", "lo": lo, "hi": lo + 76} for lo in range(0, 301, 76)]
         out += [{"kind": "perm", "lo": n, "hi": n + 1, "big": True} for n in (511, 512, 1000, 4097, 65535, 65536, 65537, 70001)]
-        out += [{"kind": "flip"}]
+        out += [{"kind": "flip"}, {"kind": "flip_pairs", "lo": 0, "hi": 128}, {"kind": "flip_pairs", "lo": 128, "hi": 256}, {"kind": "swap_runs"}]
         out += [{"kind": "swap_patterns", "maxlen": 10, "part": p, "parts": 4} for p in range(4)]
         out += [{"kind": "swap_random", "n": 5000, "part": p} for p in range(2)]
         out += [{"kind": "pipeline", "n": 2500, "part": p} for p in range(4)]
     else:
         out = [{"kind": "perm", "lo": lo, "hi": lo + 100} for lo in range(0, 5001, 100)]
-        out += [{"kind": "flip"}]
+        out += [{"kind": "flip"}, {"kind": "swap_runs"}] + [{"kind": "flip_pairs", "lo": lo, "hi": lo + 16} for lo in range(0, 256, 16)]
         out += [{"kind": "swap_patterns", "maxlen": 16, "part": p, "parts": 32} for p in range(32)]
         out += [{"kind": "swap_random", "n": 40000, "part": p} for p in range(16)]
         out += [{"kind": "pipeline", "n": 31250, "part": p} for p in range(32)]
@@ -85,7 +85,14 @@ class Mon:
 
     def call(self, name, data, *a):
         b = bytearray(data)
-        r = getattr(self.m, name)(b, *a)
+        self.n = getattr(self, "n", 0) + 1
+        if self.n % 3 == 0:
+            # the caller keeps a view of its buffer alive: in place means never resized, not even temporarily
+            with memoryview(b):
+                r = getattr(self.m, name)(b, *a)
+            self.rec.count("calls-with-a-live-view-of-the-buffer")
+        else:
+            r = getattr(self.m, name)(b, *a)
         if r is not None:
             self.rec.violation("in-place", "%s returned %r instead of mutating in place" % (name, r), {"f": name, "data": bytes(data)})
         return bytes(b)
@@ -160,6 +167,39 @@ def run(shard, rec, tier, seed):
             rec.case(("flip", x))
         rec.info["flip_exhaustive"] = "all 256 byte values"
         rec.sample({"flip_msb": [0, 1, 127, 128, 129, 254, 255], "out": list(mon.call("flip_msb", bytes([0, 1, 127, 128, 129, 254, 255])))})
+    elif kind == "flip_pairs":
+        # all byte pairs (a, b) with a in lo..hi, alone and embedded: a byte's image never depends on its neighbours
+        for a in range(shard["lo"], shard["hi"]):
+            for b in range(256):
+                x = bytes([a, b])
+                want = bytes(c if c in (0, 128) else c ^ 0x80 for c in x)
+                y = mon.call("flip_msb", x)
+                if y != want:
+                    rec.violation("flip", "flip_msb(%s) = %s, expected %s" % (x.hex(), y.hex(), want.hex()), {"data": x})
+                rec.count("flip")
+            x = bytes([a, 0, 128, a, 255, 128, 0, a])
+            want = bytes(c if c in (0, 128) else c ^ 0x80 for c in x)
+            if mon.call("flip_msb", x) != want or mon.call("flip_msb", want) != x:
+                rec.violation("flip", "flip_msb(%s) wrong or not an involution" % x.hex(), {"data": x})
+            rec.case(("flip-pairs", a), n=257)
+        rec.seen("flip_pairs_exhaustive", "first byte %d..%d x all second bytes" % (shard["lo"], shard["hi"] - 1))
+    elif kind == "swap_runs":
+        # one run of multiples of every length 0..70 and around 128 / 256 / 1024 / 4096 / 65536, at the start, in the
+        # middle and at the end of the data, for several multiples
+        for m in (1, 2, 3, 7, 13, 85, 255):
+            muls = [v for v in range(256) if v % m == 0]
+            non = [v for v in range(256) if v % m != 0] or None
+            for r in list(range(0, 71)) + [127, 128, 129, 255, 256, 257, 1023, 1024, 1025, 4096, 65536, 65537]:
+                run_ = bytes(muls[i % len(muls)] for i in range(r))
+                if non is None:
+                    layouts = [run_]
+                else:
+                    a, b = bytes(non[:3]), bytes(non[-2:])
+                    layouts = [run_, a + run_, run_ + b, a + run_ + b, run_ + b + run_]
+                for x in layouts:
+                    check_swap(mon, rec, x, m)
+                rec.case(("swap-run", m, r), n=len(layouts))
+        rec.seen("swap_runs", "run lengths 0..70, 127..129, 255..257, 1023..1025, 4096, 65536, 65537")
     elif kind == "swap_patterns":
         mults = list(range(0, 13)) + [255, 256, 1000]
         if tier == "thorough":
